@@ -3,6 +3,7 @@ NEXT Next
 VIEW View
 CONSTANTS
   MAXR = 2
+  QueuedMs = {0, 150}
   AT = 2
   Horizon = 9
   RespStopsWait = TRUE
